@@ -26,6 +26,11 @@ fn main() {
         let ok = probe::run();
         std::process::exit(if ok { 0 } else { 1 });
     }
+    if args[1] == "c12-child" {
+        std::panic::set_hook(Box::new(|_| {}));
+        props::c12::child(args[2].parse().unwrap_or(1), args[3].parse().unwrap_or(1));
+        return;
+    }
     let prop = args[1].to_uppercase();
     let mut tier = "quick".to_string();
     let mut seed: u64 = 1;
@@ -65,6 +70,7 @@ fn main() {
         "C18" => props::c18::run(&mut rep, &tier, seed),
         "C19" => props::c19::run(&mut rep, &tier, seed),
         "C20" => props::c20::run(&mut rep, &tier, seed),
+        "C12" => props::c12::run(&mut rep, &tier, seed),
         "C13" => props::c13::run(&mut rep, &tier, seed),
         "C14" => props::c14::run(&mut rep, &tier, seed),
         "C17" => props::c17::run(&mut rep, &tier, seed),
